@@ -338,6 +338,20 @@ class C11(Check):
                 self._oor_other += 1
                 continue
             return 'index/out-of-range-accepted', f'[{i}] of {n}'
+        # a refused index leaves the System as usable as before: valid indices in ascending order with a refused one
+        # between each two of them
+        for i in range(n):
+            for bad in (n, -n - 1):
+                try:
+                    syst[bad]
+                except Exception:
+                    pass
+            try:
+                f = fp_mol(syst[i])
+            except Exception as exc:
+                return 'index/exception-in-range-after-a-refused-index', f'[{i}] of {n}: {type(exc).__name__}: {exc}'
+            if f != wfp[i]:
+                return 'index/disagrees-with-iteration', f'[{i}] of {n} after a refused index'
         if level >= 2:
             vals = []
             for v in (None, -2, -1, 0, 1, 2, n):
